@@ -97,7 +97,7 @@ Section Order.
     (forall k, pd_get V s' k = pd_get V s k) /\
     (forall k, pu_get V s' k = match pu_get V s k with Some v => if is_upd (f k v) then None else Some v | None => None end) /\
     (forall k, dp_get V s' k = match pu_get V s k with Some v => if is_upd (f k v) then Some v else dp_get V s k | None => dp_get V s k end).
-  Proof.
+  Proof using All.
     intros I. cbn zeta. unfold pu_iter_full.
     set (g := fun k => match get (DU s) k with Some v => f k v | None => ANoOp end).
     pose proof (NoDup_visit_order V order (DU s) (inv_du V veq s I)) as NV.
@@ -122,7 +122,7 @@ Section Order.
     (forall k, des_get V s' k = des_get V s k) /\ (forall k, pu_get V s' k = pu_get V s k) /\
     (forall k, pd_get V s' k = match pd_get V s k with Some v => if is_upd (f k) then None else Some v | None => None end) /\
     (forall k, dp_get V s' k = match pd_get V s k with Some v => if is_upd (f k) then None else Some v | None => dp_get V s k end).
-  Proof.
+  Proof using All.
     intros I. cbn zeta. unfold pd_iter_full.
     pose proof (NoDup_visit_order V order (ND s) (inv_nd V veq s I)) as NV.
     destruct (pd_pass f (visit_order V order (ND s)) NV s) as (H1 & H2 & H3 & H4). cbn zeta in *.
@@ -145,7 +145,7 @@ Section Order.
     dp_get V (pu_iter_full V o1 f s) k = dp_get V (pu_iter_full V o2 f s) k /\
     pu_get V (pu_iter_full V o1 f s) k = pu_get V (pu_iter_full V o2 f s) k /\
     pd_get V (pu_iter_full V o1 f s) k = pd_get V (pu_iter_full V o2 f s) k.
-  Proof.
+  Proof using All.
     intros I k. destruct (iter_upd_full_any_order o1 f s I) as (_ & A1 & A2 & A3 & A4).
     destruct (iter_upd_full_any_order o2 f s I) as (_ & B1 & B2 & B3 & B4). cbn zeta in *.
     rewrite A1, A2, A3, A4, B1, B2, B3, B4. auto.
@@ -155,7 +155,7 @@ Section Order.
     dp_get V (pd_iter_full V o1 f s) k = dp_get V (pd_iter_full V o2 f s) k /\
     pu_get V (pd_iter_full V o1 f s) k = pu_get V (pd_iter_full V o2 f s) k /\
     pd_get V (pd_iter_full V o1 f s) k = pd_get V (pd_iter_full V o2 f s) k.
-  Proof.
+  Proof using All.
     intros I k. destruct (iter_del_full_any_order o1 f s I) as (_ & A1 & A2 & A3 & A4).
     destruct (iter_del_full_any_order o2 f s I) as (_ & B1 & B2 & B3 & B4). cbn zeta in *.
     rewrite A1, A2, A3, A4, B1, B2, B3, B4. auto.
@@ -168,7 +168,7 @@ Section Order.
   Theorem delete_all_any_order o1 o2 s : Inv V veq s ->
     let s' := des_delete_all_ord o1 o2 s in
     Inv V veq s' /\ (forall k, des_get V s' k = None) /\ (forall k, dp_get V s' k = dp_get V s k) /\ des_len V s' = 0%Z.
-  Proof.
+  Proof using All.
     intros I. cbn zeta. unfold des_delete_all_ord.
     set (s1 := fold_left (fun s k => des_delete V k s) (visit_order V o1 (DU s)) s).
     assert (I1 : Inv V veq s1) by (apply (fold_inv V veq (fun s k => des_delete V k s)); auto using des_delete_inv).
@@ -206,7 +206,7 @@ Section Order.
     (forall k, dp_get V s1 k = dp_get V s2 k) /\ (forall k, dp_get V s1 k = get kvs k) /\
     (forall k, opt_veq V veq (des_get V s1 k) (des_get V s2 k) = true) /\
     (forall k, pd_get V s1 k = pd_get V s2 k).
-  Proof.
+  Proof using All.
     intros P ND I. cbn zeta.
     assert (ND' : NoDup (keys kvs')) by (eapply Permutation_NoDup; [apply perm_keys, P|exact ND]).
     rewrite !(dp_replace_any V veq fixed) by (right; assumption).
@@ -254,3 +254,29 @@ Section SetTracker.
       repeat split; intros; try congruence; try tauto; try (destruct H; congruence).
   Qed.
 End SetTracker.
+
+(* InSync() = nothing pending (and then, with valuesEqual = identity, Desired = Dataplane) *)
+Section InSync.
+  Variable V : Type.
+  Variable veq : V -> V -> bool.
+  Hypothesis veq_refl : forall a, veq a a = true.
+
+  Theorem in_sync_iff s : Inv V veq s ->
+    (in_sync V s = true <-> (forall k, pu_get V s k = None) /\ (forall k, pd_get V s k = None)) /\
+    (in_sync V s = true -> (forall a b, veq a b = true -> a = b) -> forall k, des_get V s k = dp_get V s k).
+  Proof using All.
+    intros I.
+    assert (Z0 : forall (m : amap V), Z.eqb (len m) 0 = true <-> (forall k, get m k = None)).
+    { intros m. unfold len. rewrite Z.eqb_eq. split.
+      - intros H. destruct m; [reflexivity|cbn in H; lia].
+      - intros H. rewrite (all_none_nil m H). reflexivity. }
+    assert (A : in_sync V s = true <-> (forall k, pu_get V s k = None) /\ (forall k, pd_get V s k = None)).
+    { unfold in_sync, pd_len, pu_len, pu_get, pd_get. rewrite andb_true_iff, !Z0. tauto. }
+    split; [exact A|]. intros H Heq k. apply A in H. destruct H as [Hu Hd].
+    specialize (Hu k). specialize (Hd k).
+    rewrite (inv_pu V veq veq_refl s k I) in Hu. rewrite (inv_pd V veq s k I) in Hd.
+    unfold pending_update, pending_del in *.
+    destruct (des_get V s k) as [d|], (dp_get V s k) as [p|]; try congruence.
+    destruct (veq p d) eqn:E; [|congruence]. apply Heq in E. congruence.
+  Qed.
+End InSync.
